@@ -1,0 +1,23 @@
+//go:build verif
+
+// Verification hooks (add-only, compiled only with -tags verif). They expose
+// the unexported streaming helpers of this package to the out-of-tree
+// correspondence harness in /verif; no existing behaviour is changed.
+package compresshttp
+
+import "io"
+
+// VerifCompress calls compress.
+func VerifCompress(encoding string, r io.Reader, w io.Writer) error {
+	return compress(encoding, r, w)
+}
+
+// VerifDecompress calls decompress.
+func VerifDecompress(encoding string, r io.Reader) (io.Reader, error) {
+	return decompress(encoding, r)
+}
+
+// VerifSelectEncoding calls selectEncoding.
+func VerifSelectEncoding(acceptEncoding string) string {
+	return selectEncoding(acceptEncoding)
+}
